@@ -40,6 +40,9 @@ fn main() {
     for pat in get("patterns", "O,AO,AEO,OEEO,AOE,EO,EEO,AAO").split(',').filter(|x| !x.is_empty()) {
         jobs.push(Job { family: "chain".into(), pattern: pat.into(), width: 1 });
     }
+    for pat in get("epatterns", "OEO,AEO,OEA").split(',').filter(|x| !x.is_empty()) {
+        jobs.push(Job { family: "erun".into(), pattern: pat.into(), width: 1 });
+    }
     for pat in get("lpatterns", "O,AO,AEO,EO").split(',').filter(|x| !x.is_empty()) {
         jobs.push(Job { family: "layers".into(), pattern: pat.into(), width: 4 });
     }
@@ -58,7 +61,7 @@ fn main() {
         let sizes = sizes.clone();
         let out = out.clone();
         let tag = tag.clone();
-        handles.push(std::thread::Builder::new().stack_size(1 << 30).spawn(move || {
+        handles.push(std::thread::Builder::new().stack_size(std::env::var("BIG_STACK_MB").ok().and_then(|x| x.parse::<usize>().ok()).unwrap_or(8) << 20).spawn(move || {
             std::panic::set_hook(Box::new(|_| {}));
             let mut wr = Writer::new(&out, &format!("{}-t{:02}", tag, t), 40000);
             let mut stats = Stats::default();
